@@ -404,7 +404,8 @@ Definition never_op (o:batch_op) (st:tbl * list (key * key)) : bres (tbl * list 
            | None, _ => BErr EOperationalB
            | Some _, None => BOk (T, orig)
            | Some c, Some n =>
-               if mem_name n (map (fun p => c_name (snd p)) (tb_cols T)) then BErr EOperationalB
+               if name_eqb n (c_name c) then BOk (T, orig)       (* RENAME COLUMN c TO c: accepted by SQLite, nothing changes *)
+               else if mem_name n (map (fun p => c_name (snd p)) (tb_cols T)) then BErr EOperationalB
                else BOk (mkTbl (map (fun p => if name_eqb (fst p) k then (n, mkCol n (c_ty (snd p)) (c_nullable (snd p)) (c_default (snd p))) else p) (tb_cols T))
                                (map (rename_key k n) (tb_pk T))
                                (map (fun c0 => mkCon (k_name c0)
